@@ -159,6 +159,7 @@ type runner struct {
 	mode   string
 	nadds  int
 	held   []heldList
+	dir    string // file store: the path, for re-opening with another cap
 	target string // deliver mode: mailbox the BeforeMessageStored listener routes to
 }
 
@@ -481,6 +482,19 @@ func (r *runner) op(o string) string {
 		}
 	case 'c':
 		return r.checkHeld()
+	case 'o':
+		// o<cap>: the file store is re-opened on the same path with another mailbox cap (what a restart
+		// with a changed INBUCKET_STORAGE_MAILBOXMSGCAP does); same extension host
+		if r.dir == "" {
+			return "BADOP-o-on-memory-store"
+		}
+		st, err := file.New(config.Storage{Type: "file", Params: map[string]string{"path": r.dir}, MailboxMsgCap: mb}, r.host)
+		if err != nil {
+			return "OE" + hex.EncodeToString([]byte(err.Error()))
+		}
+		r.store = st
+		r.mgr.Store = st
+		return "O" + r.evTokens(false)
 	case 'w':
 		return r.visitStop(vh.AtoI(rest[0]), len(rest) > 1 && rest[1] == "1")
 	default:
@@ -646,7 +660,7 @@ func Exec(kind string, in []string) []string {
 	if err != nil {
 		return []string{"NEWERR", vh.HS(err.Error())}
 	}
-	r := &runner{store: store, host: host, log: log, mode: mode, nameI: map[string]int{}}
+	r := &runner{store: store, host: host, log: log, mode: mode, nameI: map[string]int{}, dir: dir}
 	r.mgr = &message.StoreManager{
 		AddrPolicy: &policy.Addressing{Config: &config.Root{MailboxNaming: config.LocalNaming}},
 		Store:      store, ExtHost: host,
